@@ -72,6 +72,15 @@ CHECKS["C02"] = dict(engine="kektor-engine",
   text="TLC checks in every reachable state that what the next Open would read after a crash at each modelled point gives every item a value it held since its last durable write, and that reopening is a fixed point. For every sampled pre-crash state TLC emits the history and the admissible outcome per crash point; the replayer takes real crash images at the hook points and checks Open succeeds, membership, fixed point and no further loss.",
   note="Process-death model (page cache survives). Crash points inside VDeleteIndex, VImportCommit, Compress and a second crash during recovery are not enumerated yet. Known finding KF-C02-1 carried as a named deviation.", ref="6 C02", level="model_checking")
 
+CHECKS["C06"] = dict(engine="vsearch",
+  technique="TLC on Search.tla (index contents as a history machine over lattice vectors; Admissible(R,q,k,Live/\\Eval(filter)/\\Scope); SpecSearch: the search action is always enabled and sound) + SearchLayer.tla (transcription of searchLayerUnlocked: LSound on every 3-node graph) + TLC-tabulated admissible sets / tie classes per contents (SpecOracle) + replay of every TLC history on a real engine, after every step the battery (stored and foreign queries x k in {1,2,live+1} x ef in {0,1,50} x 8 filters x graph scopes x VSearch/VSearchGraph/VSearchWithScores/VFilter/text/hybrid) judged with the oracle's sets, scores recomputed from VGet with the reference loop; recorded searches on ~290-vector indexes validated by TLC (Trace_Search)",
+  text="TLC enumerates every history of the bound (4 ids, <=4 operations, all insertion paths, deletes, re-adds, vacuum, refine, compress, restart, links) plus random walks and dictates, per reached contents, which ids a search may return and in which order; every answer of the real engine is checked for membership, duplicates, length, order and score (1/(1+d), decay 1) within the precision's tolerance on euclid/float32, cosine/float32, euclid/float16, cosine/int8.",
+  note="Lattice data only (components -3..3, dimension 2-3 forward, 2-8 in traces); int8 searches outside the trained quantizer range exempt from score/order; text/hybrid judged for admissibility and score bounds only; sequential histories (the background refine is awaited); a restart that loses contents is attributed to C01. Built by a sub-agent.", ref="6 C06")
+CHECKS["C07"] = dict(engine="vsearch",
+  technique="TLC on Search.tla (TopKSets up to ties by exact integer arithmetic; Exact when nodes <= 2*M) + SearchLayer.tla (LExact: the layer search is exact whenever live allow-listed nodes are pairwise linked; vacuity run without the premise must fail) + forward replay (M=2, efConstruction=3: 4-node regime and block path reachable) with set(R) in TopKSets checked after every step + backward: recall traces (single / batch / fast import, deletes, vacuum, refine, re-add, compress, restart) validated by TLC (Trace_Search) against floors + refine-vs-add race probe",
+  text="Exactness in the small regime is decided by TLC's TopKSets on every replayed step; on larger indexes TLC recomputes for every recorded query how many live vectors are strictly nearer than each returned id and checks per-phase recall for ef>=50, default ef and self-retrieval.",
+  note="Floors (euclid 85/65/55, cosine 50/25/35 %) are regression detectors fixed >= 11 / >= 21 points below minima measured over 3x80 traces; graph levels are random, so a replay may need repetition; float data and dimensions above 8 not covered. Open finding KF-C07-1 (block path never links batch-mates). Built by a sub-agent.", ref="6 C07")
+
 NOT_YET = {}
 
 def main():
@@ -106,6 +115,7 @@ def main():
             {"name": "aof-codec", "path": "spec/Codec.tla + tools/check_C03.py + harness/cmd/vcodec", "serves_properties": ["C03"], "kind_free_text": "TLA+ codec/damage model, cases refined to bytes and run on the real recovery"},
             {"name": "paths", "path": "spec/Paths.tla + tools/check_C11.py + harness/cmd/vpaths", "serves_properties": ["C11"], "kind_free_text": "TLA+ reachability/shortest-path definitions + algorithm transcriptions; graphs replayed on the real engine"},
             {"name": "text-rag", "path": "spec/Split.tla + spec/Compress.tla + spec/Adaptive.tla + tools/check_C20.py + harness/cmd/c20", "serves_properties": ["C20"], "kind_free_text": "TLA+ transcriptions of splitter/compressor/retriever, every case executed on the real code"},
+            {"name": "vsearch", "path": "spec/Search.tla + spec/SearchLayer.tla + spec/Trace_Search.tla + tools/search_checks.py + harness/cmd/vsearch", "serves_properties": ["C06", "C07"], "kind_free_text": "TLA+ search oracle (admissible sets, exact top-k), histories replayed on the real engine, recall traces validated by TLC"},
             {"name": "decay", "path": "spec/Decay.tla + tools/check_C15.py + harness/cmd/c15decay", "serves_properties": ["C15"], "kind_free_text": "TLA+ case analysis, one implementation test per TLC state"},
             {"name": "http-conformance", "path": "spec/Http.tla + tools/check_C19.py + harness/cmd/vhttp", "serves_properties": ["C19"], "kind_free_text": "TLA+ request/FS model, cases replayed on the real server"},
             {"name": "kektor-engine", "path": "spec/Kektor.tla + tools/engine_checks.py + harness/internal/eng", "serves_properties": ["C01", "C02", "C04", "C05", "C10", "C12"],
